@@ -45,6 +45,7 @@ func (s *Skiplist) NewIterator2(cmp CompareFn,
 
 // SeekFirst moves cursor to the start
 func (it *Iterator) SeekFirst() {
+	verifYield(vpItSeek, unsafe.Pointer(it.s), nil, 0)
 	it.prev = it.s.head
 	it.curr, _ = it.s.head.getNext(0)
 	it.valid = true
@@ -102,11 +103,13 @@ func (it *Iterator) Next() {
 
 retry:
 	it.valid = true
+	verifYield(vpItNext, unsafe.Pointer(it.s), unsafe.Pointer(it.curr), 0)
 	next, deleted := it.curr.getNext(0)
 	if deleted {
 		// Current node is deleted. Unlink current node from the level
 		// and make next node as current node.
 		// If it fails, refresh the path buffer and obtain new current node.
+		verifYield(vpItHelp, unsafe.Pointer(it.s), unsafe.Pointer(it.curr), 0)
 		if it.s.helpDelete(0, it.prev, it.curr, next, &it.s.Stats) {
 			it.curr = next
 		} else {
@@ -143,6 +146,7 @@ func (it *Iterator) SetRefreshInterval(interval int) {
 
 func (it *Iterator) Refresh() {
 	if it.Valid() {
+		verifYield(vpItRefresh, unsafe.Pointer(it.s), unsafe.Pointer(it.curr), 0)
 		currBs := it.bs
 		itm := it.Get()
 		it.bs = it.s.barrier.Acquire()
